@@ -77,7 +77,7 @@
 #include <vector>
 
 #define SHIM_MT 1
-#define SHIM_NT 5
+#define SHIM_NT 6
 #include "shim_ra.h"
 
 #define atomic verif_atomic
@@ -294,11 +294,13 @@ int main(int argc, char** argv)
   auto emit = [](std::string const& s) { std::lock_guard<std::recursive_mutex> lk(shim::g_mx); shim::g_out << s << "\n"; shim::g_out.flush(); };
 
   VLogger* logger = nullptr;
-  static Worker X, Y, Z[2];
+  static Worker X, Y, Z[3];
   X.logical = 0; X.tag = 'X';
   Y.logical = 2; Y.tag = 'Y';
   Z[0].logical = 3; Z[0].tag = 'Z';
   Z[1].logical = 4; Z[1].tag = 'Z';
+  Z[2].logical = 5; Z[2].tag = 'Z';
+  auto zlogged = [&] { return Z[0].committed + Z[1].committed + Z[2].committed; };
   auto written_json = []
   {
     std::lock_guard<std::mutex> l(g_wr_mx);
@@ -539,9 +541,9 @@ int main(int argc, char** argv)
       std::string k;
       while (ss >> k) s_policy.insert(k);
     }
-    else if (c == "Z1" || c == "Z2")
+    else if (c == "Z1" || c == "Z2" || c == "Z3")
     {
-      Worker& z = Z[c == "Z1" ? 0 : 1];
+      Worker& z = Z[c[1] - '1'];
       ss >> op;
       if (op == "start") z.start(logger);
       else if (op == "log")
@@ -636,10 +638,10 @@ int main(int argc, char** argv)
       // A request behind a delivered statement has been processed in those iterations (its flag is set): the call returns, wait for
       // it. If a statement of a new thread is still unwritten, its context was never read: the calls that have not returned are stuck.
       long stuck = 0;
-      if (g_delivered.load() >= Z[0].committed + Z[1].committed) for (auto* z : flushing) z->wait();
+      if (g_delivered.load() >= zlogged()) for (auto* z : flushing) z->wait();
       else for (auto* z : flushing) { std::lock_guard<std::mutex> l(z->mx); if (!z->ack) ++stuck; }
       emit("{\"e\":\"quiet\",\"cache\":" + std::to_string(cache_size()) + ",\"delivered\":" + std::to_string(g_delivered.load()) +
-           ",\"zlogged\":" + std::to_string(Z[0].committed + Z[1].committed) + ",\"drops\":" + std::to_string(s_xdrops) +
+           ",\"zlogged\":" + std::to_string(zlogged()) + ",\"drops\":" + std::to_string(s_xdrops) +
            ",\"reported\":" + std::to_string(g_reported.load()) + ",\"xcalls\":" + std::to_string(X.committed) + ",\"flushstuck\":" + std::to_string(stuck) + "}");
     }
     else if (c == "end") break;
